@@ -37,7 +37,8 @@ def make_plan(tape, prop):
     plan["nproc"] = 4 + tape.draw(5)          # how many fresh-interpreter configurations are executed
     plan["pick"] = [tape.draw(1 << 10) for _ in range(12)]
     plan["unrelated"] = tape.draw(1 << 16)
-    plan["variant"] = tape.draw(2)      # 1: every independent input sits in its own directory next to its own defs.prophy
+    plan["variant"] = tape.draw(3)      # 1: every independent input sits in its own directory next to its own defs.prophy
+                                        # 2: the common file is found only through the last of two -I directories
     return plan
 
 
@@ -70,6 +71,7 @@ class DetRun(object):
         self.states = set()
         self.log = hashlib.sha1()
         self.trace = []
+        self.incdirs = []
 
     def count(self, k, n=1):
         self.stats[k] = self.stats.get(k, 0) + n
@@ -99,6 +101,17 @@ class DetRun(object):
                     inputs.append("d%d/tail%d.prophy" % (k, k))
                 self.faults["same_include_name_in_two_directories"] = 1
                 return files, inputs
+            if self.plan.get("variant") == 2:
+                files["inc/common.prophy"] = render.prophy_text({"defs": common})
+                files["inc0/unrelated.prophy"] = "const UNRELATED = 1;\n"
+                inputs = []
+                for k, t in enumerate(tails):
+                    name = "t%d/tail%d.prophy" % (k, k)
+                    files[name] = render.prophy_text({"defs": [t]}, includes=["common.prophy"])
+                    inputs.append(name)
+                self.incdirs = ["inc0", "inc"]
+                self.faults["include_found_through_last_-I"] = 1
+                return files, inputs
             files["common.prophy"] = render.prophy_text({"defs": common})
             inputs = []
             for k, t in enumerate(tails):
@@ -117,6 +130,8 @@ class DetRun(object):
         argv = [sys.executable, "-B", "-m", "prophyc"]
         for o in OUT_OPTS:
             argv += [o, show(outdir)]
+        for d in self.incdirs:
+            argv += ["-I", show(os.path.join(root, "src", d))]
         argv += [show(os.path.join(root, "src", i)) for i in inputs]
         env = {"PYTHONHASHSEED": str(hashseed), "PYTHONPATH": REPO, "PATH": os.environ.get("PATH", ""),
                "PYTHONDONTWRITEBYTECODE": "1"}
@@ -177,7 +192,13 @@ class DetRun(object):
                     if n == 0:
                         self.count("baseline_compile_failed")
                         self.trace.append(err[:300])
-                        return None      # not C20's business (C12/C13 decide valid schemas compile)
+                        # a schema that does not compile at all is not C20's business (C12/C13) - unless every input
+                        # compiles when it is compiled alone: then one file changed what happens to another
+                        if len(inputs) > 1 and all(self.compile_in_process(files, [i]) is not None for i in inputs):
+                            return self.v("rc", "C20/compile-together-fails-but-each-alone-succeeds",
+                                          "every input compiles alone, but one invocation with [%s] fails: %s" %
+                                          (" ".join(inputs), err[:300]))
+                        return None
                     return self.v("rc", "C20/exit-status-differs", "baseline succeeded, but with %s prophyc failed: %s" %
                                   (desc, err[:300]))
                 got = self.collect(outdir, bases)
@@ -209,6 +230,9 @@ class DetRun(object):
         argv = []
         for o in OUT_OPTS:
             argv += [o, "/w/out"]
+        for d in self.incdirs:
+            if fs.isdir("/w/src/" + d):
+                argv += ["-I", "/w/src/" + d]
         argv += ["/w/src/" + i for i in inputs]
         nodes, exc, so, se = simworld.run_prophyc(fs, argv)
         if exc is not None:
